@@ -401,6 +401,19 @@ mod tests {
         assert_eq!(value_def.name().as_str(), "foo");
     }
 
+    // the 'missing semi' error is reported at the character after the previous
+    // token, which may not exist, or may be longer than one byte
+    #[test]
+    fn missing_semi_span_is_in_source() {
+        for fea in ["@a = [b]", "@a = [b]é", "lookup a", "include(a)"] {
+            let (_out, errors, _errstr) = debug_parse_output(fea, root);
+            assert!(!errors.is_empty(), "{fea}");
+            for err in errors {
+                assert!(fea.get(err.span()).is_some(), "'{fea}': {err:?}");
+            }
+        }
+    }
+
     fn assert_include_path_matches(fea: &str, path: &str) {
         let (out, errors, _errstr) = debug_parse_output(fea, include);
         assert!(errors.is_empty(), "{errors:?}");
